@@ -31,7 +31,7 @@ def squeries(qs):
 
 def gen(rng, tier):
     cases = []
-    nfiles = 12 if tier == "quick" else 400
+    nfiles = 12 if tier == "quick" else 60
     for i in range(nfiles):
         e, info = elfgen.sample_elf(rng, kinds=rng.choice([None, ["text", "symtab", "note", "dynamic"], ["text", "dynsym", "hash", "versions"]]))
         e.with_shdrs = True
